@@ -476,10 +476,19 @@ class BasicBlock(Value):
             self.__replacements[old] = new
 
     def ReplaceUses(self, old: Union[int, Value], new: Optional[Value]):
-        if isinstance(old, Value):
-            self.__replaceUses[old.Reference] = new
-        else:
-            self.__replaceUses[old] = new
+        ref = old.Reference if isinstance(old, Value) else old
+
+        # The new value may itself be scheduled for replacement (and removal),
+        # and earlier replacements may point to ``old``: resolve such chains so
+        # that no use ends up referring to a value that is going away
+        while isinstance(new, Value) and new.Reference in self.__replaceUses:
+            new = self.__replaceUses[new.Reference]
+
+        for key, value in self.__replaceUses.items():
+            if isinstance(value, Value) and value.Reference == ref:
+                self.__replaceUses[key] = new
+
+        self.__replaceUses[ref] = new
 
     def __Replace(self):
         # We search all instructions, check if they're marked for replacement,
